@@ -54,7 +54,21 @@ impl World {
         let hist: SmtMapping<Cas, BlockHeight, Header> = SmtMapping::new(p.history.clone());
         match hist.get(&BlockHeight(p.height.0.saturating_sub(1))) {
             Some(h) => Some(h),
-            None => silent(|| s.clone().seal(None).header()).ok(),
+            // the first block of a chain has no predecessor: covenants are shown a stand-in that carries only what is
+            // fixed for the block (since the fix for F25; before, the header of the block sealed as it stood)
+            None => Some(Header {
+                network: p.network,
+                previous: Default::default(),
+                height: p.height,
+                history_hash: Default::default(),
+                coins_hash: Default::default(),
+                transactions_hash: Default::default(),
+                fee_pool: CoinValue(0),
+                fee_multiplier: p.fee_multiplier,
+                dosc_speed: p.dosc_speed,
+                pools_hash: Default::default(),
+                stakes_hash: Default::default(),
+            }),
         }
     }
 
